@@ -13,7 +13,7 @@ RULE = ('lines generated from the grammar SSH-<d>.<d+>-<token>[ <comments>] (tok
         'Banner.parse / Software.parse, end-to-end cases deliver 0..6 header lines then the banner from a scripted peer (CRLF or LF; in one write, cut in two inside the banner or a header line, or in 1-7 byte segments) and read the text and JSON report; '
         'a case is non-trivial when at least one generated line was parsed and every part (protocol, software, comments, flag, round trip) was compared; '
         'distinct = distinct batch / peer specifications')
-REQUIRED = {'lines_parsed': 5000, 'injected_lines': 500, 'product_lines': 300, 'e2e_runs': 20, 'e2e_injected_at_end_of_line': 8, 'e2e_protocol_1_99': 6, 'e2e_blank_first_line': 6, 'e2e_long_header_lines': 8, 'e2e_with_header': 5, 'e2e_cut_inside_a_line': 10, 'e2e_header_then_cut_banner': 4}
+REQUIRED = {'e2e_via_targets_file': 3, 'e2e_client_audits': 3, 'lines_parsed': 5000, 'injected_lines': 500, 'product_lines': 300, 'e2e_runs': 20, 'e2e_injected_at_end_of_line': 8, 'e2e_protocol_1_99': 6, 'e2e_blank_first_line': 6, 'e2e_long_header_lines': 8, 'e2e_with_header': 5, 'e2e_cut_inside_a_line': 10, 'e2e_header_then_cut_banner': 4}
 ASSUMPTIONS = ['comments are compared after collapsing whitespace runs to one space (the normalisation the tool documents)',
                'each character outside 32..126 is expected to be shown as one replacement character; a multi-byte UTF-8 sequence or an undecodable byte counts as one character',
                'end-to-end delivery is one TCP segment smaller than the tool\'s 2048-byte read (segmentation is C09\'s subject)']
@@ -91,6 +91,9 @@ def cases(tier, seed):
     ne = 64 if tier == 'quick' else 1200
     for i in range(ne):
         cs.append({'kind': 'e2e', 'seed': rng.randrange(1 << 30), 'json': i % 3 == 2, 'headers': i % 7, 'eol': '\n' if i % 5 == 4 else '\r\n', 'inject': i % 4 == 3, 'product': i % 2 == 0, 'cut': ['none', 'in-banner', 'in-header', 'bytewise'][(i // 2) % 4]})
+    # the same peers named in a targets file (one entry) and audited as clients (-c): header text and banner are reported the same way in every kind of run
+    for i in range(10 if tier == 'quick' else 100):
+        cs.append({'kind': 'e2e', 'seed': rng.randrange(1 << 30), 'json': i % 5 == 4, 'headers': 1 + i % 3, 'eol': '\n' if i % 4 == 3 else '\r\n', 'inject': i % 3 == 2, 'product': i % 2 == 0, 'cut': 'none', 'via': ['file', 'client'][i % 2]})
     # servers announcing SSH-1.99 (both protocols): the same decomposition, sanitising and flagging
     for i in range(8 if tier == 'quick' else 60):
         cs.append({'kind': 'e2e', 'seed': rng.randrange(1 << 30), 'json': i % 4 == 3, 'headers': i % 3, 'eol': '\r\n', 'inject': i % 2 == 0, 'product': i % 4 < 2, 'cut': 'none', 'proto199': True})
@@ -179,7 +182,12 @@ def run_e2e(c):
     if total > 1900 and not c.get('long_header'):
         return [], {'e2e_skipped_long': 1}
     args = ['-j'] if c['json'] else ['-n']
-    r, p = audit.audit_server(script, args)
+    if c.get('via') == 'client':
+        r, p = audit.audit_client(dict(script, hostkeys={}, gex=None), args)
+        if p.count('connected') == 0:
+            return None, {'why': 'client peer could not connect'}
+    else:
+        r, p = audit.audit_server(script, args, via_file=(c.get('via') == 'file'))
     viol = []
     rendered = 'SSH-' + proto + '-' + exp['software'] + (' ' + exp['comments'] if exp['comments'] else '')
     if r.status not in (0, 2, 3):
@@ -190,6 +198,8 @@ def run_e2e(c):
             doc = json.loads(r.out)
         except ValueError:
             return None, {'why': 'json unparsable'}
+        if isinstance(doc, list):   # a targets-file run prints an array with one element per target
+            doc = doc[0] if doc else {}
         b = doc.get('banner', {})
         want = {'raw': rendered, 'protocol': proto, 'software': exp['software'], 'comments': exp['comments']}
         for f in want:
@@ -220,7 +230,8 @@ def run_e2e(c):
             swl = rep.gen_value('software')
             if swl is None or (exp['product'] + ' ' + exp['version']) not in swl:  # a vendor name may precede the product
                 viol.append(_v('C16/e2e-software:' + exp['product'], 'software line does not carry product and version', line=line, got=swl))
-    return viol, {'e2e_runs': 1, 'e2e_injected_at_end_of_line': 1 if c.get('inject') == 'end' else 0, 'e2e_protocol_1_99': 1 if c.get('proto199') else 0, 'e2e_blank_first_line': 1 if c.get('blank_first') else 0, 'e2e_long_header_lines': 1 if c.get('long_header') else 0, 'e2e_with_header': 1 if pre else 0, 'e2e_cut_inside_a_line': 1 if p.count('fault') else 0, 'e2e_header_then_cut_banner': 1 if pre and cut == 'in-banner' and p.count('fault') else 0}
+    return viol, {'e2e_runs': 1, 'e2e_injected_at_end_of_line': 1 if c.get('inject') == 'end' else 0, 'e2e_protocol_1_99': 1 if c.get('proto199') else 0, 'e2e_blank_first_line': 1 if c.get('blank_first') else 0, 'e2e_long_header_lines': 1 if c.get('long_header') else 0, 'e2e_with_header': 1 if pre else 0, 'e2e_cut_inside_a_line': 1 if p.count('fault') else 0, 'e2e_header_then_cut_banner': 1 if pre and cut == 'in-banner' and p.count('fault') else 0,
+                  'e2e_via_targets_file': 1 if c.get('via') == 'file' else 0, 'e2e_client_audits': 1 if c.get('via') == 'client' else 0}
 
 
 def run_case(c):
